@@ -53,6 +53,12 @@ CHECKS = {
  "C17": ("exploration", "runtime monitoring: counter/callback oracle evaluated after every step of model-driven queue programs",
          "After every step of generated producer/consumer/reopen programs Pending == Active == flushed - acked, Reader.Available == flushed(at Begin) - consumed, Flushed/ACKed callback totals equal the model's totals (bracketed by what explicit flushes and the reader prove), OnQueueInit after reopen, queue header page counter == pages held.",
          "DESIGN.md 5 (C17)", SIM),
+ "C06": ("fault_enumeration", "runtime monitoring: offline crash-image recovery oracle at queue level over the recorded I/O log (every I/O boundary x lost-write subsets), images reopened through txfile open + delegate + pq.New and drained",
+         "Producer/consumer histories recorded on the simulated disk with every Writer call and ACK bracketed by markers carrying flushed/ACKed totals; every I/O boundary after queue creation is crashed with lost-write subsets; the recovered queue must deliver exactly events [acked', flushed') for an allowed pair (before/after the call in progress, all-or-nothing), report the matching Pending, and accept+deliver appended events.",
+         "DESIGN.md 5 (C06)", SIM),
+ "C13": ("exploration", "runtime monitoring: consumer-side FIFO oracle with independently computable event contents + Go race detector + state-based deadlock detector, yields injected at commit hook points of flush and ACK transactions",
+         "Free-running producer and consumer goroutines on one queue under the race detector (unbounded and nearly-full bounded files); consumer must receive exactly events 0,1,2,... byte-identical, every ACK must succeed, everything arrives after the final flush, Pending==0 and callback totals ==N at the end; evidence lists the (actor step @ other actor's commit point) pairs observed.",
+         "DESIGN.md 5 (C13)", SIM + "; Go race detector"),
  "C03": ("exploration", "runtime monitoring: model-based differential execution on a simulated disk with controlled writer stalls (+race detector slice)",
          "Real txfile code is driven by PRNG-generated transaction programs on a simulated disk; a sequential page model is compared in a read transaction after every transaction end, on every in-transaction read and after reopen, while a gate stalls the background writer so that several transactions' page writes share one writer batch. Held-on-explored-executions assurance; right level because the property quantifies over histories and writer timings that cannot be enumerated.",
          "DESIGN.md 4 (C03)", SIM),
